@@ -442,19 +442,20 @@ structure ErrObs where
 deriving Repr, DecidableEq
 
 /-- type_error.go:3-12 `newErrorObject`: `newError(rt, name, pop, "%s", message.string())` – the message is an
-    OPERAND of the format `%s`, so it arrives unchanged; `err.messageValue()` (error.go:128) is `Value{}` for the
-    empty string.  global.go:174-178: every object not made by one of the six NativeError functions gets an own
-    `name`.  builtin_error.go: only `builtinError` passes `stackFramesToPop = 1`. -/
-def errObs (r : Route) (ctor : String) (arg : Option String) : ErrObs :=
+    OPERAND of the format `%s`, so it arrives unchanged – and the own `message` is `stringValue(err.message)`.
+    global.go:174-179: an own `name` only for names other than "Error" and the six NativeError names.
+    builtin_error.go: every constructor called as a function passes `stackFramesToPop = 1`, so its own native
+    activation is not in the trace. -/
+def errObs (_r : Route) (ctor : String) (arg : Option String) : ErrObs :=
   let m := arg.getD ""
   { runText := format ctor m
-    msgIsString := match arg with | some a => a.length != 0 | none => true
+    msgIsString := true
     msg := m
     ownMessage := arg.isSome
-    ownName := !isNativeSub ctor
+    ownName := !(ctor = "Error" || isNativeSub ctor)
     str := format ctor m
     stackHead := format ctor m
-    nativeTop := r == .call && isNativeSub ctor }
+    nativeTop := false }
 
 /-! ## `Error.prototype.toString` on an arbitrary this value (builtin_error.go:15-42) -/
 
@@ -464,35 +465,17 @@ inductive ThisKind
   | object (name msg : Option String)     -- an object and its `name` / `message` properties (`none` = undefined)
 deriving Repr, DecidableEq
 
-/-- `none` = a TypeError is thrown.  `call.thisObject()` is `toObject(this)`: it throws for null and wraps a
-    primitive in an object (which has neither `name` nor `message`).  An undefined this never arrives:
-    `Function.prototype.call/apply` hand the global object to the callee instead (also to built-ins). -/
+/-- `none` = a TypeError is thrown.  `call.thisObject()` is `toObject(this)`: it throws for null and throws for null.
+    An undefined this never arrives:
+    `Function.prototype.call/apply` hand the global object to the callee instead (also to built-ins).
+    builtin_error.go:16: a this value that is not an object is rejected. -/
 def errorProtoToString : ThisKind → Option String
   | .undef => some (format "Error" "")
   | .null => none
-  | .prim => some (format "Error" "")
+  | .prim => none
   | .object n m => some (format (n.getD "Error") (m.getD ""))
 
 /-! ## engine errors whose text embeds user text -/
-
-/-- `fmt.Sprintf(format)` with NO operands, for formats in which every `%` is followed by `%`, by a plain verb
-    character (no flag, width, precision or index) or by the end of the string: fmt/print.go `doPrintf` writes
-    `%` for `%%`, `%!v(MISSING)` for a verb `v` without operand and `%!(NOVERB)` for a trailing `%`. -/
-def sprintf0 : List Char → List Char
-  | [] => []
-  | c :: r =>
-    if c = '%' then
-      match r with
-      | [] => "%!(NOVERB)".toList
-      | v :: r' => if v = '%' then '%' :: sprintf0 r' else "%!".toList ++ [v] ++ "(MISSING)".toList ++ sprintf0 r'
-    else c :: sprintf0 r
-
-/-- is `f` inside the modelled subset of `sprintf0`? -/
-def sprintf0OK : List Char → Bool
-  | [] => true
-  | '%' :: [] => true
-  | '%' :: v :: r => !(v = '+' || v = '-' || v = '#' || v = ' ' || v = '0' || v.isDigit || v = '.' || v = '[' || v = '*') && sprintf0OK r
-  | _ :: r => sprintf0OK r
 
 inductive EngineMsg
   | evalToken (tok : String)     -- `eval(tok)`, tok a punctuator that cannot start a statement: parseThrow (runtime.go:865)
@@ -501,11 +484,11 @@ inductive EngineMsg
   | notFunction (name : String)  -- `o[name]()` on a non-function     (cmpl_evaluate_expression.go:230 `%q is not a function`)
 deriving Repr, DecidableEq
 
-/-- (class name, message).  The first two pass the whole error text as the FORMAT of `newError` (no operands);
-    the last two pass the user text as an operand of a literal format. -/
+/-- (class name, message).  The first two pass the complete error text as the operand of `"%s"`, the last two pass
+    the user text as an operand of a literal format: user text is never interpreted. -/
 def engineMsg : EngineMsg → String × String
-  | .evalToken t => ("SyntaxError", String.ofList (sprintf0 ("(anonymous): Line 1:1 Unexpected token " ++ t).toList))
-  | .jsonChar c => ("SyntaxError", String.ofList (sprintf0 ("invalid character '" ++ c ++ "' looking for beginning of value").toList))
+  | .evalToken t => ("SyntaxError", "(anonymous): Line 1:1 Unexpected token " ++ t)
+  | .jsonChar c => ("SyntaxError", "invalid character '" ++ c ++ "' looking for beginning of value")
   | .unresolvable n => ("ReferenceError", "'" ++ n ++ "' is not defined")
   | .notFunction n => ("TypeError", "\"" ++ n ++ "\" is not a function")
 
